@@ -131,6 +131,7 @@ def r3(run: Run, rt):
             run.check(ok, 'C15.R3', f'_datedif[{cp.label}]/unit D', 'unit-D',
                       f'unit "D" returns `{ast.unparse(rets[0].value) if rets else "?"}`, not the day count of end - start',
                       fact='(end - start).days', loc=cp.loc(case.pattern))
+        rd_units = set()
         # units M, Y, YM over the finite domain
         for unit, spec in (('M', lambda m: m), ('Y', lambda m: m // 12), ('YM', lambda m: m % 12)):
             case = units.get(unit)
@@ -142,31 +143,45 @@ def r3(run: Run, rt):
             approx = [n for n in ast.walk(ast.Module(body=case.body, type_ignores=[])) if isinstance(n, ast.BinOp) and
                       isinstance(n.op, (ast.FloorDiv, ast.Div, ast.Mod)) and
                       any(isinstance(x, ast.Attribute) and x.attr in ('days', 'total_seconds') for x in ast.walk(n.left))]
+            rd_diff = [n for n in ast.walk(ast.Module(body=case.body, type_ignores=[])) if isinstance(n, ast.Call) and
+                       ast.unparse(n.func).endswith('relativedelta') and (len(n.args) >= 2 or {k.arg for k in n.keywords} & {'dt1', 'dt2'})]
+            if rd_diff:
+                run.bad('C15.R3', f'_datedif/unit {unit}', 'from-relativedelta-difference',
+                        f'unit "{unit}" is computed from `{ast.unparse(rd_diff[0])[:70]}`: the difference of two dates as a relativedelta '
+                        f'is normalised against month ends (31 January .. 28 February counts as one whole month, 29 Feb 2020 .. 28 Feb '
+                        f'2021 as a whole year), which is not "complete months": the end day-of-month has to reach the start '
+                        f'day-of-month', loc=cp.loc(rd_diff[0]))
+                rd_units.add(unit)
+                continue
             if approx:
                 run.bad('C15.R3', f'_datedif/unit {unit}', 'from-day-count',
                         f'unit "{unit}" is computed as `{ast.unparse(approx[0])[:90]}`: a count of {"years" if unit == "Y" else "months"} '
                         f'obtained by dividing a number of days is not calendar-exact (years differ in length)', loc=cp.loc(approx[0]))
                 continue
             n_ok, first_bad = 0, None
-            for sm in range(1, 13):
-                for em in range(1, 13):
-                    for sd, ed in ((10, 20), (15, 15), (20, 10)):
-                        for dy in (0, 1, 2):
-                            s, e = (2001, sm, sd), (2001 + dy, em, ed)
-                            if s > e:
-                                continue
-                            ev = Evaluator(cp.members)
-                            try:
-                                got = ev.call_method('_datedif', [_dt(*s), _dt(*e), const_av(unit)])
-                            except Unknown as u:
-                                raise AnalysisError('C15.R3', f'unit {unit}: the body is outside the modelled integer/field subset: {u}')
-                            except AbsRaise as r:
-                                got = AV('other', val=('raise', r.exc))
-                            want = spec(_months(s, e))
-                            if got.kind == 'int' and got.val == want:
-                                n_ok += 1
-                            elif first_bad is None:
-                                first_bad = (s, e, got, want)
+            derived = False
+            points = [((2001, sm, sd), (2001 + dy, em, ed)) for sm in range(1, 13) for em in range(1, 13)
+                      for sd, ed in ((10, 20), (15, 15), (20, 10)) for dy in (0, 1, 2)]
+            for s, e in points:
+                if s > e:
+                    continue
+                ev = Evaluator(cp.members)
+                try:
+                    got = ev.call_method('_datedif', [_dt(*s), _dt(*e), const_av(unit)])
+                except Unknown as u:
+                    if rd_units:
+                        derived = True        # derives from a unit that is already reported (relativedelta difference)
+                        break
+                    raise AnalysisError('C15.R3', f'unit {unit}: the body is outside the modelled integer/field subset: {u}')
+                except AbsRaise as r:
+                    got = AV('other', val=('raise', r.exc))
+                want = spec(_months(s, e))
+                if got.kind == 'int' and got.val == want:
+                    n_ok += 1
+                elif first_bad is None:
+                    first_bad = (s, e, got, want)
+            if derived:
+                continue
             construct = f'_datedif[{cp.label}]/unit {unit}'
             if first_bad is None:
                 run.ok('C15.R3', construct, f'{n_ok} (start month, end month, day order, year difference) classes agree', loc=cp.loc(case.pattern))
@@ -188,6 +203,58 @@ def r4(run: Run, rt):
             continue
         parents = parent_map(fn)
         ps = _params(fn)
+        # whatever the shape of the counting: a number of holidays that is SUBTRACTED from the count must only contain holidays
+        # that are Monday-Friday dates (a holiday on a weekend was never counted, so it must not be taken off)
+        if len(ps) >= 3:
+            tainted = {ps[2]}
+            changed = True
+            while changed:
+                changed = False
+                for n in ast.walk(fn):
+                    tg, val = None, None
+                    if isinstance(n, ast.Assign):
+                        tg, val = n.targets, n.value
+                    elif isinstance(n, ast.AugAssign):
+                        tg, val = [n.target], n.value
+                    elif isinstance(n, ast.For):
+                        tg, val = [n.target], n.iter
+                    elif isinstance(n, ast.comprehension):
+                        tg, val = [n.target], n.iter
+                    if tg is None:
+                        continue
+                    if {x.id for x in ast.walk(val) if isinstance(x, ast.Name)} & tainted:
+                        for t in tg:
+                            for x in ast.walk(t):
+                                if isinstance(x, ast.Name) and x.id not in tainted:
+                                    tainted.add(x.id)
+                                    changed = True
+                    if isinstance(n, ast.Expr):
+                        pass
+                for n in ast.walk(fn):      # collection.update(tainted) / .add / .append / +=
+                    if isinstance(n, ast.Call) and isinstance(n.func, ast.Attribute) and n.func.attr in ('update', 'add', 'append', 'extend') \
+                            and isinstance(n.func.value, ast.Name) and n.func.value.id not in tainted and \
+                            {x.id for a in n.args for x in ast.walk(a) if isinstance(x, ast.Name)} & tainted:
+                        tainted.add(n.func.value.id)
+                        changed = True
+            subs = []
+            for n in ast.walk(fn):
+                if isinstance(n, ast.AugAssign) and isinstance(n.op, ast.Sub):
+                    subs.append((n, n.value))
+                elif isinstance(n, ast.BinOp) and isinstance(n.op, ast.Sub):
+                    subs.append((n, n.right))
+            for node, val in subs:
+                names = {x.id for x in ast.walk(val) if isinstance(x, ast.Name)}
+                if not (names & (tainted - {ps[2]}) or ps[2] in names):
+                    continue
+                if not any(isinstance(c, ast.Call) and isinstance(c.func, ast.Name) and c.func.id in ('len', 'sum') for c in ast.walk(val)):
+                    continue
+                wd = any(isinstance(c, ast.Call) and isinstance(c.func, ast.Attribute) and c.func.attr in ('weekday', 'isoweekday')
+                         for c in ast.walk(val))
+                if not wd:
+                    run.bad('C15.R4', f'_network_days/{ast.unparse(node)[:50]}', 'holiday-subtracted-without-weekday-test',
+                            f'`{ast.unparse(node)[:100]}` takes a number of listed holidays off the count without testing that each of them '
+                            f'is a Monday-Friday date: a holiday that falls on a Saturday or Sunday was never counted and is subtracted all '
+                            f'the same', loc=cp.loc(node))
         loops = [n for n in ast.walk(fn) if isinstance(n, ast.While)]
         if len(loops) != 1:
             raise AnalysisError('C15.R4', f'_network_days: expected one day loop, found {len(loops)}')
